@@ -96,7 +96,7 @@ fn parse_pat_nosubst(sig: &LangSig, toks: &[String], pos: &mut usize) -> Result<
                     args.push(Arg::S(name_of_alpha(s).ok_or(format!("bad slot {s}"))?));
                     *pos += 1;
                 }
-                Field::PayU32 | Field::PaySym => {
+                Field::PayU32 | Field::PaySym | Field::PayOther(_) => {
                     args.push(Arg::P(toks.get(*pos).ok_or("unexpected end")?.clone()));
                     *pos += 1;
                 }
